@@ -566,7 +566,7 @@ Definition listener_init : listener := mkL [] 0 0 default_bw default_bw [] 0 0.
 Inductive lop :=
 | LPost (c : cfg)
 | LAccept
-| LClose (id : nat).
+| LClose (id : nat) (underlying_ok : bool).   (* Conn.Close; what the wrapped conn's Close returned *)
 
 Inductive lout := OStatus (code : Z) | OConn (id : nat) | ONone.
 
@@ -589,8 +589,11 @@ Definition accept (l : listener) : listener * lout :=
        (c :: l_conns l) (S (l_nextid l)) (l_live l + nb),
    OConn (l_nextid l)).
 
-(* Conn.Close — as REPAIRED by fixes/C18-1: the per-connection buckets are closed. *)
-Definition close_conn (l : listener) (id : nat) : listener * lout :=
+(* Conn.Close — as REPAIRED by fixes/C18-1: the per-connection buckets are closed,
+   BEFORE and independently of the underlying connection's Close, whose outcome
+   [underlying_ok] (nil / error, e.g. a tls.Conn that cannot send close_notify
+   after a reset) therefore plays no role. *)
+Definition close_conn (l : listener) (id : nat) (underlying_ok : bool) : listener * lout :=
   match filter (fun c => Nat.eqb (c_id c) id) (l_conns l) with
   | [] => (l, ONone)
   | c :: _ =>
@@ -604,7 +607,7 @@ Definition lstep (l : listener) (o : lop) : listener * lout :=
   match o with
   | LPost c => post l c
   | LAccept => accept l
-  | LClose id => close_conn l id
+  | LClose id ok => close_conn l id ok
   end.
 
 Fixpoint lrun (l : listener) (ops : list lop) : listener * list lout :=
